@@ -284,10 +284,8 @@ def check_contract(sde, y0, ts, bm, method, adaptive, options, names, logqp):
 def parse_return(y0, ys, extra_solver_state, extra, logqp):
     if logqp:
         ys, log_ratio = ys.split(split_size=(y0.size(1) - 1, 1), dim=2)
-        log_ratio_increments = torch.stack(
-            [log_ratio_t_plus_1 - log_ratio_t
-             for log_ratio_t_plus_1, log_ratio_t in zip(log_ratio[1:], log_ratio[:-1])], dim=0
-        ).squeeze(dim=2)
+        # (Differenced in one go: with a single output time there are no increments, and the result is of shape (0, batch).)
+        log_ratio_increments = (log_ratio[1:] - log_ratio[:-1]).squeeze(dim=2)
 
         if extra:
             return ys, log_ratio_increments, extra_solver_state
